@@ -507,4 +507,7 @@ def run(chk):
     common.level_parser_table(chk, P, "C17")
     level_parse_rule(chk, P, "C17.R2:level-parse")
     span_filter_sees_level(chk, P, "C17.R6:span-filter-sees-level")
+    if not getattr(chk, "_overlay", None):
+        from . import shapes
+        shapes.macro_level_used(chk, P, "C17.R6:macro-level-used")
     return chk
